@@ -442,6 +442,13 @@ class Counters(EngineBase):
                         ["cpu_percent"], ["cpu_percent", "cpu_percent"],
                         ["name", "cpu_percent", "name", "cpu_percent"],
                         ["cpu_percent", "pid"]])
+            if op["op"] in ("cpu_percent", "cpu_times_percent") and \
+                    not (interval and interval > 0) and \
+                    not (interval is not None and interval < 0) and \
+                    rng.random() < 0.06:
+                # this one call cannot read /proc/stat (EMFILE, ENOENT...):
+                # it fails; the thread's previous sample must survive
+                op["fail"] = rng.choice([24, 2, 5])
             if interval and interval > 0:
                 # ticks that land while the call sleeps
                 nsub = rng.randrange(0, 3)
@@ -541,6 +548,8 @@ class Counters(EngineBase):
             t_start = k.mono
             pt_start = None
             k.begin_op(idx)
+            if op.get("fail"):
+                k.deny = {"/proc/stat": op["fail"]}
             try:
                 if kind == "cpu_times":
                     out = ("value", psutil.cpu_times(percpu=op["percpu"]))
@@ -567,6 +576,20 @@ class Counters(EngineBase):
                     raise
                 out = ("exc", e)
             k.end_op()
+            if op.get("fail"):
+                k.deny = {}
+                if out[0] == "exc" and isinstance(out[1], OSError) and \
+                        out[1].errno == op["fail"]:
+                    probes["stat_read_failed"] = probes.get(
+                        "stat_read_failed", 0) + 1
+                else:
+                    V("C07.exception", ["failed_read", "swallowed" if out[0]
+                                        == "value" else type(out[1]).__name__],
+                      kind, "/proc/stat could not be read (errno %d) but %s "
+                      "%s" % (op["fail"], kind, "returned %r" % (out[1],)
+                              if out[0] == "value" else "raised %r" %
+                              (out[1],)))
+                continue
             if kind == "proc_cpu_percent" and op.get("deny"):
                 probes["proc_sample_failed"] = probes.get(
                     "proc_sample_failed", 0) + 1
